@@ -136,7 +136,8 @@ pub fn show(n: &RNotification) -> String {
     match n {
         RNotification::Forward(Forward { publish, .. }) => format!(
             "PUBLISH({},q{},id{},{}{})",
-            String::from_utf8_lossy(&publish.topic), publish.qos as u8, publish.pkid, String::from_utf8_lossy(&publish.payload), if publish.retain { ",retained" } else { "" }
+            // a QoS 0 publish carries no packet id on the wire: whatever the field holds is not observable
+            String::from_utf8_lossy(&publish.topic), publish.qos as u8, if publish.qos as u8 == 0 { 0 } else { publish.pkid }, String::from_utf8_lossy(&publish.payload), if publish.retain { ",retained" } else { "" }
         ),
         RNotification::DeviceAck(a) => match a {
             Ack::ConnAck(_, c, _) => format!("CONNACK(sp={})", c.session_present),
@@ -307,14 +308,17 @@ enum Req {
     Pub0,
 }
 
-fn expected_replies(reqs: &[Req]) -> Vec<String> {
+/// returns (expected replies, protocol_violation): after a protocol violation (a release the broker never
+/// solicited) the broker closes that connection; replies already queued for earlier packets of the same
+/// batch may then never be flushed, so only "no wrong, duplicate or reordered reply" is demanded (prefix).
+fn expected_replies(reqs: &[Req]) -> (Vec<String>, bool) {
     let mut out = vec![];
     let mut held: VecDeque<u16> = VecDeque::new();
     for q in reqs {
         match q {
             Req::Pub1(k) => out.push(format!("PUBACK({})", k)),
             Req::Pub2(k) => { out.push(format!("PUBREC({})", k)); held.push_back(*k); }
-            Req::Rel(k) => { if held.pop_front().is_some() { out.push(format!("PUBCOMP({})", k)); } else { return out; /* unsolicited release: connection closed */ } }
+            Req::Rel(k) => { if held.pop_front().is_some() { out.push(format!("PUBCOMP({})", k)); } else { return (out, true); /* unsolicited release: connection closed */ } }
             Req::Sub(k, n) => out.push(format!("SUBACK({},{} codes)", k, n)),
             Req::Unsub(k, _) => out.push(format!("UNSUBACK({})", k)),
             Req::UnsubTwo(k) => out.push(format!("UNSUBACK({})", k)),
@@ -322,7 +326,7 @@ fn expected_replies(reqs: &[Req]) -> Vec<String> {
             Req::Pub0 => {}
         }
     }
-    out
+    (out, false)
 }
 
 fn to_packet(q: &Req) -> Packet {
@@ -375,9 +379,10 @@ fn every_request_gets_exactly_one_reply_in_order() {
                 }
             }
             let got: Vec<String> = shown(&drain(&mut r, &a)).into_iter().filter(|s| !s.starts_with("PUBLISH(")).collect();
-            let exp = expected_replies(&reqs);
+            let (exp, violated) = expected_replies(&reqs);
             let stray = shown(&drain(&mut r, &other));
-            if got != exp {
+            let ok = if violated { got.len() <= exp.len() && got[..] == exp[..got.len()] } else { got == exp };
+            if !ok {
                 fail = Some(format!("input=[requests={:?} batched={}] detail=[replies {:?}, expected {:?}]", reqs, batched, got, exp));
                 break 'outer;
             }
